@@ -284,6 +284,9 @@ impl SemaphoreState {
                 // of the waiter list
                 unsafe { self.force_remove_waiter(wait_node) };
                 wait_node.state = PollState::Done;
+                // The removed waiter might have blocked waiters behind it,
+                // whose requests fit into the available permits
+                self.wakeup_waiters();
             }
             PollState::New | PollState::Done => {}
         }
